@@ -14,20 +14,25 @@ work=$(mktemp -d /tmp/gocv-bounded.XXXXXX); trap 'rm -rf "$work"' EXIT
   for f in /verif/bounded/*_test.go; do
     [ $first -eq 1 ] || echo ','
     first=0
-    printf '"%s/compress/flate/zz_bounded_%s":"%s"' "$repo" "$(basename $f)" "$f"
+    dir=compress/flate; [ "$(basename $f)" = huffman_test.go ] && dir=compress/flate/internal/huffman; [ "$(basename $f)" = hdrwrite_test.go ] && dir=compress/flate/internal/deflate
+    printf '"%s/%s/zz_bounded_%s":"%s"' "$repo" "$dir" "$(basename $f)" "$f"
   done
   echo '}}'
 } > $work/overlay.json
 if [ "$tier" = thorough ]; then
-  export VERIF_BOUNDED_COMPLETE_SYMS=30 VERIF_BOUNDED_INCOMPLETE_SYMS=6 VERIF_BOUNDED_RANDOM=3000000 VERIF_BOUNDED_HEADERS=150000 VERIF_BOUNDED_PATTERNS=600
+  export VERIF_BOUNDED_COMPLETE_SYMS=30 VERIF_BOUNDED_INCOMPLETE_SYMS=6 VERIF_BOUNDED_RANDOM=3000000 VERIF_BOUNDED_HEADERS=150000 VERIF_BOUNDED_PATTERNS=600 VERIF_BOUNDED_HISTOGRAMS=2000000 VERIF_BOUNDED_BIGCOUNTS=1 VERIF_BOUNDED_WHEADERS=150000
   to=1500s
 else
-  export VERIF_BOUNDED_COMPLETE_SYMS=${VERIF_BOUNDED_COMPLETE_SYMS:-30} VERIF_BOUNDED_INCOMPLETE_SYMS=${VERIF_BOUNDED_INCOMPLETE_SYMS:-4} VERIF_BOUNDED_RANDOM=${VERIF_BOUNDED_RANDOM:-100000} VERIF_BOUNDED_HEADERS=${VERIF_BOUNDED_HEADERS:-10000} VERIF_BOUNDED_PATTERNS=${VERIF_BOUNDED_PATTERNS:-400}
+  export VERIF_BOUNDED_COMPLETE_SYMS=${VERIF_BOUNDED_COMPLETE_SYMS:-30} VERIF_BOUNDED_INCOMPLETE_SYMS=${VERIF_BOUNDED_INCOMPLETE_SYMS:-4} VERIF_BOUNDED_RANDOM=${VERIF_BOUNDED_RANDOM:-100000} VERIF_BOUNDED_HEADERS=${VERIF_BOUNDED_HEADERS:-10000} VERIF_BOUNDED_PATTERNS=${VERIF_BOUNDED_PATTERNS:-400} VERIF_BOUNDED_HISTOGRAMS=${VERIF_BOUNDED_HISTOGRAMS:-60000} VERIF_BOUNDED_BIGCOUNTS=1 VERIF_BOUNDED_WHEADERS=${VERIF_BOUNDED_WHEADERS:-8000}
   to=300s
 fi
 out=$work/out.txt
 s=$(date +%s.%N)
-(cd $repo && go test -overlay $work/overlay.json -vet=off -count=1 -timeout $to -run 'TestBounded(DistTable|ClcTable|HeaderTables)$' -v ./compress/flate) > $out 2>&1
+case "$prop" in
+  C01|C10) pkg="./compress/flate/internal/huffman ./compress/flate/internal/deflate"; run='TestBounded(HuffmanGenerate|HeaderWriter)$'; group=writer ;;
+  *)       pkg=./compress/flate; run='TestBounded(DistTable|ClcTable|HeaderTables|ByteCopy)$'; group=tables ;;
+esac
+(cd $repo && go test -overlay $work/overlay.json -vet=off -count=1 -timeout $to -run "$run" -v $pkg) > $out 2>&1
 code=$?
 e=$(date +%s.%N)
 rroot=${VERIF_REPLAY_ROOT:-/verif/replays}; export VERIF_REPLAY_ROOT=$rroot
@@ -36,23 +41,26 @@ explored=$(grep -o 'BOUNDED explored=[0-9]*' $out | cut -d= -f2 | paste -sd+ | b
 nfail=$(grep -c 'BOUNDED-FAIL' $out)
 status=0
 known=/verif/known_findings.txt
-if [ $code -ne 0 ] && [ "$nfail" -eq 0 ]; then
-  # build failure, timeout or a crash of the harness itself
-  r=$rroot/$prop/bounded_disttab_harness.json
-  python3 - "$out" "$r" "$prop" <<'PY'
-import json,sys
-json.dump({"property":sys.argv[3],"obligation":"bounded[disttab] harness did not run to completion","output":open(sys.argv[1]).read()[-6000:]},open(sys.argv[2],'w'),indent=1)
-PY
-  echo "VIOLATION property=$prop replay=$r no-failing-input-found"
-  status=1
-fi
+nfail=$(grep -c 'BOUNDED-FAIL lens=' $out)
+: > $work/viol.txt
 if [ "$nfail" -gt 0 ]; then
   # one VIOLATION per distinct message class (first input of each), with a replay command
   python3 /verif/tools/bounded_parse.py "$prop" "$known" "$out" > $work/viol.txt
   cat $work/viol.txt
   grep -q '^VIOLATION' $work/viol.txt && status=1
 fi
-printf 'bounded[tables]: property %s tier %s: explored=%s failures=%s exit=%s %.1fs\n' "$prop" "$tier" "${explored:-0}" "$nfail" "$status" "$(echo "$e - $s" | bc)"
+if [ $code -ne 0 ] && ! grep -q '^VIOLATION\|^KNOWN-FINDING' $work/viol.txt; then
+  # build failure, timeout (a hang in the function under test shows up here) or a crash of the harness itself
+  r=$rroot/$prop/bounded_${group}_harness.json
+  python3 - "$out" "$r" "$prop" <<'PY'
+import json,sys
+json.dump({"property":sys.argv[3],"obligation":"bounded harness did not run to completion (build failure, crash, or the function under test does not terminate within the time limit)","output":open(sys.argv[1]).read()[-6000:]},open(sys.argv[2],'w'),indent=1)
+PY
+  echo "VIOLATION property=$prop replay=$r no-failing-input-found"
+  status=1
+fi
+printf 'bounded[%s]: property %s tier %s: explored=%s failures=%s exit=%s %.1fs\n' "$group" "$prop" "$tier" "${explored:-0}" "$nfail" "$status" "$(echo "$e - $s" | bc)"
+export VERIF_BOUNDED_GROUP=$group
 [ "$repo" = /repo ] && python3 - "$prop" "$tier" "${explored:-0}" "$nfail" "$(echo "$e - $s" | bc)" <<'PY'
 # the bounded stand-in reports inside the property's evidence file (coverage.bounded_stand_in), written after gocv's part
 import json,sys,os
@@ -60,9 +68,9 @@ prop,tier,explored,nfail,wall=sys.argv[1:6]
 p='/verif/evidence/%s.json'%prop
 try: ev=json.load(open(p))
 except Exception: ev={"property_id":prop,"tier":tier,"seed":0,"level":"other","coverage":{},"wall_s":0.0}
-ev.setdefault("coverage",{})["bounded_stand_in"]={"label":"bounded (not proof)","what":"genForDists+setCodes on distance code length vectors, GenerateForHeader+setCodes on code length code vectors, and the whole dynamic-header table construction (setupDynamicHeader) on random complete codes in the three multi-symbol modes; real tables compared with canonical decoding and with the contract predicates (bound stated in /verif/bounded/*_test.go)",
+ev.setdefault("coverage",{})["bounded_stand_in"]={"label":"bounded (not proof)","group":os.environ.get("VERIF_BOUNDED_GROUP",""),"what":"(group writer: huffman.Generate + GenerateCode2 on random histograms of 19/30/286 symbols - assumed postcondition, complete prefix-free codes; dynamicHeader.writeTo on random code length vectors - the bits written parse back, with an independent RFC 1951 parser, to the same lengths) (group tables:) genForDists+setCodes on distance code length vectors, GenerateForHeader+setCodes on code length code vectors, and the whole dynamic-header table construction (setupDynamicHeader) on random complete codes in the three multi-symbol modes; real tables compared with canonical decoding and with the contract predicates (bound stated in /verif/bounded/*_test.go)",
  "explored_inputs":int(explored),"failures":int(nfail),"wall_s":float(wall),
- "bound":{"complete_codes_max_symbols":int(os.environ.get("VERIF_BOUNDED_COMPLETE_SYMS","30")),"incomplete_codes_max_symbols":int(os.environ.get("VERIF_BOUNDED_INCOMPLETE_SYMS","4")),"random_vectors":int(os.environ.get("VERIF_BOUNDED_RANDOM","100000")),"random_headers":int(os.environ.get("VERIF_BOUNDED_HEADERS","10000")),"patterns_per_header":int(os.environ.get("VERIF_BOUNDED_PATTERNS","400"))}}
+ "bound":{"complete_codes_max_symbols":int(os.environ.get("VERIF_BOUNDED_COMPLETE_SYMS","30")),"incomplete_codes_max_symbols":int(os.environ.get("VERIF_BOUNDED_INCOMPLETE_SYMS","4")),"random_vectors":int(os.environ.get("VERIF_BOUNDED_RANDOM","100000")),"random_headers":int(os.environ.get("VERIF_BOUNDED_HEADERS","10000")),"patterns_per_header":int(os.environ.get("VERIF_BOUNDED_PATTERNS","400")),"histograms":int(os.environ.get("VERIF_BOUNDED_HISTOGRAMS","60000")),"written_headers":int(os.environ.get("VERIF_BOUNDED_WHEADERS","8000"))}}
 ev["wall_s"]=round(float(ev.get("wall_s",0))+float(wall),3)
 json.dump(ev,open(p,'w'),indent=1)
 PY
